@@ -32,6 +32,21 @@ def _c01_opaque():
     return opaque
 
 
+def _is_the_argument(v, param) -> bool:
+    """the value is the caller's argument itself (through asarray-like conversions that keep the number of dimensions)"""
+    for _ in range(4):
+        if veq(v, param):
+            return True
+        if isinstance(v, Term) and v.head in ('lib:numpy.asarray', 'lib:numpy.asanyarray', 'lib:numpy.array', 'lib:numpy.ascontiguousarray'):
+            nxt = v.kw('a') if v.kw('a') is not None else (v.kw('object') if v.kw('object') is not None else (v.args[0] if v.args else None))
+            if nxt is None:
+                return False
+            v = nxt
+            continue
+        return False
+    return False
+
+
 def dispatch_fallthrough(ctx, qualname: str, param: str, what: str, known):
     """dispatch over a name parameter, decided by specialisation (any dispatch idiom: if-chain, early returns, table):
     every documented literal reaches a normal return; an unknown literal reaches only `raise ValueError`"""
@@ -64,7 +79,12 @@ def dispatch_fallthrough(ctx, qualname: str, param: str, what: str, known):
         uncond = [e for e in raises if not e.guard]
         ctx.check(bool(rets) and not uncond and all(e.kind == 'return' for e in rets), 'C20.2', f"{fi.name}: the documented {what} '{lit}' is accepted",
                   f"returns {len(rets)}, unconditional raises {[e.data.get('exc') for e in uncond]}", fi.loc(), fi.qualname, f"known:{fi.name}:{lit}")
-    for lit in ('__no_such_' + param + '__', ''):
+    near = []
+    for k in known:
+        # names an over-tolerant match (prefix / suffix / substring / case-insensitive comparison) would let through
+        near += [k + '_x', 'x_' + k, k[:-1], k.upper(), k.capitalize(), ' ' + k]
+    near = [n_ for n_ in dict.fromkeys(near) if n_ not in known]
+    for lit in ['__no_such_' + param + '__', ''] + near:
         rets, raises = evaluate(lit)
         ok = not rets and any(e.data.get('exc') == 'ValueError' and not e.guard for e in raises) and all(e.data.get('exc') == 'ValueError' for e in raises)
         ctx.check(ok, 'C20.2', f"{fi.name}: an unknown {what} reaches only `raise ValueError`",
@@ -92,7 +112,8 @@ def check_guards(ctx, wm: WeaverModel):
     ev.run_function(fi, args={'xy': xy})
     rs = [e for e in ev.events if e.kind == 'raise']
     news = [e for e in ev.events if e.kind in ('new', 'call')]
-    ok = any(e.data.get('exc') == 'ValueError' and guard_mentions(e.guard, lambda t: isinstance(t, Term) and t.head == 'attr' and veq(t.args[1], Const('shape')))
+    ok = any(e.data.get('exc') == 'ValueError' and guard_mentions(e.guard, lambda t: isinstance(t, Term) and t.head == 'attr' and veq(t.args[1], Const('shape'))
+                                                               and _is_the_argument(t.args[0], xy))
              for e in rs)
     two = any(isinstance(t, Num) and t.is_const() and t.const() == 2 for e in rs for g in e.guard for t in walk_vals(g))
     ctx.check(ok and two, 'C20.1', 'non-(N,2) array: from_2d_array tests the shape and raises ValueError',
